@@ -3,8 +3,11 @@ package main
 import (
 	"fmt"
 	"go/ast"
+	"go/token"
 	"go/types"
 	"strings"
+
+	"golang.org/x/tools/go/cfg"
 )
 
 // C04 - values are copied or shared exactly as Go prescribes.
@@ -33,6 +36,7 @@ func init() {
 	ruleText["R04.5"] = "in the range generator every non-string operand is evaluated through genValueRangeArray, and the default case of genValueRangeArray returns reflect.ValueOf(value(f).Interface())"
 	ruleText["R04.6"] = "same analysis as C11/R11.5 (closure values capture a clone of the defining frame)"
 	ruleText["R04.8"] = "in no run-time closure is a frame slot (frame.data[i], directly or through a local alias of the vector) assigned the plain result v(f) of a value generator; frozen exception: the result slots of an interpreted call (call: rvalues)"
+	ruleText["R04.9"] = "in every generator, a statement replacing the node's own frame slot (data[i] = v, i captured from n.findex) by a value produced in place (reflect.New(T).Elem(), a received value) is unreachable, on the flow graph of its function literal pruned under n.anc.kind == assignStmt and CanSet(), i.e. the value is Set into the destination when the parent is an assignment"
 	ruleText["R04.7"] = "same analysis as C01/R01.8 (result stored on every path of the run-time closure)"
 }
 
@@ -65,6 +69,7 @@ func runC04(c *Config, r *Report) {
 	cloneCopiesData(ic, r, "R04.6")
 	c01R8(ic, r, "R04.7", nil)
 	c04R8(ic, r)
+	c04R9(ic, r)
 }
 
 // c04R5: the range shadow copy.
@@ -248,5 +253,282 @@ func c04R8(ic *IC, r *Report) {
 	}
 	if len(perFunc) == 0 {
 		r.Pass("R04.8", "slots/never-rebound-to-generator-results", "", fmt.Sprintf("%d slot stores in %d run-time closures; none binds a slot to a plain generator result (one frozen exception: call rvalues)", nStores, nClosures))
+	}
+}
+
+// c04R9: a generator that produces a brand-new value (a struct literal, a value received from
+// a channel) may install it by replacing its frame slot only when that slot is not an assigned
+// variable. cfg's direct-store shortcut makes the slot of such a right-hand side the slot of
+// the destination of the assignment; replacing it there detaches every pointer to the variable
+// and every closure over it (p := &x; x = T{3, 4}; *p is still the old value), and for a field
+// or element destination the value is lost altogether (res[i] = <-ch leaves res[i] at 0).
+// Decided on the flow graph of the innermost function literal containing each replacement,
+// pruned under "the parent is an assignment and the destination is settable": the replacement
+// must be unreachable.
+func c04R9(ic *IC, r *Report) {
+	info := ic.Info
+	dataFld := ic.field("frame", "data")
+	findexFld := ic.field("node", "findex")
+	if dataFld == nil || findexFld == nil {
+		r.Errorf("anchor not resolved: frame.data / node.findex")
+		return
+	}
+	// scope: the generators whose slot cfg's assignment shortcut can make the destination's:
+	// the receive generator (builtin[aRecv]) and the composite-literal generators (the
+	// functions compositeGenerator chooses among, with the helpers they call). Other
+	// generators replace a temporary slot of their own, which no variable shares.
+	scope := map[*types.Func]bool{}
+	for _, f := range ic.Pk.Syntax {
+		ast.Inspect(f, func(n ast.Node) bool {
+			if kv, ok := n.(*ast.KeyValueExpr); ok {
+				if k, ok := kv.Key.(*ast.Ident); ok && k.Name == "aRecv" {
+					if v, ok := kv.Value.(*ast.Ident); ok {
+						if fo, ok := info.Uses[v].(*types.Func); ok {
+							scope[fo] = true
+						}
+					}
+				}
+			}
+			return true
+		})
+	}
+	if cg := ic.F["compositeGenerator"]; cg != nil && cg.Decl.Body != nil {
+		ast.Inspect(cg.Decl.Body, func(n ast.Node) bool {
+			if id, ok := n.(*ast.Ident); ok {
+				if fo, ok := info.Uses[id].(*types.Func); ok && fo.Pkg() == ic.Pk.Types {
+					scope[fo] = true
+				}
+			}
+			return true
+		})
+	} else {
+		r.Errorf("anchor not resolved: compositeGenerator")
+	}
+	for round := 0; round < 2; round++ {
+		for fo := range scope {
+			if d := ic.G.Funcs[fo]; d != nil && d.Decl.Body != nil {
+				ast.Inspect(d.Decl.Body, func(n ast.Node) bool {
+					if c, ok := n.(*ast.CallExpr); ok {
+						if g, ok := calleeOf(info, c).(*types.Func); ok && g.Pkg() == ic.Pk.Types && !scope[g] {
+							if sg := g.Type().(*types.Signature); sg.Params().Len() >= 1 && isNamedPtr(sg.Params().At(0).Type(), "node") && sg.Results().Len() == 0 {
+								scope[g] = true
+							}
+						}
+					}
+					return true
+				})
+			}
+		}
+	}
+	if len(scope) < 6 {
+		r.Errorf("R04.9: only %d generators in scope (receive and composite-literal generators expected)", len(scope))
+	}
+	nSites := 0
+	for _, name := range sortedKeys(ic.F) {
+		fi := ic.F[name]
+		if fi.Decl.Body == nil || fi.Obj == nil || fi.Decl.Recv != nil || !scope[fi.Obj] {
+			continue
+		}
+		sig := fi.Obj.Type().(*types.Signature)
+		if sig.Params().Len() < 1 || !isNamedPtr(sig.Params().At(0).Type(), "node") {
+			continue
+		}
+		// captured variables holding the node's own slot index, and flags defined from the parent's kind
+		ownIdx := map[types.Object]bool{}
+		assignFlag := map[types.Object]bool{}
+		ast.Inspect(fi.Decl.Body, func(n ast.Node) bool {
+			as, ok := n.(*ast.AssignStmt)
+			if !ok || len(as.Lhs) != len(as.Rhs) {
+				return true
+			}
+			for i, rhs := range as.Rhs {
+				id, ok := as.Lhs[i].(*ast.Ident)
+				if !ok {
+					continue
+				}
+				if se, ok := unparen(rhs).(*ast.SelectorExpr); ok && selField(info, se) == findexFld {
+					if x, ok := unparen(se.X).(*ast.Ident); ok && x.Name == "n" {
+						ownIdx[info.ObjectOf(id)] = true
+					}
+				}
+				if be, ok := unparen(rhs).(*ast.BinaryExpr); ok && be.Op == token.EQL && types.ExprString(be.X) == "n.anc.kind" && types.ExprString(be.Y) == "assignStmt" {
+					assignFlag[info.ObjectOf(id)] = true
+				}
+			}
+			return true
+		})
+		if len(ownIdx) == 0 {
+			continue
+		}
+		atom := func(e ast.Expr) int {
+			switch x := e.(type) {
+			case *ast.Ident:
+				if assignFlag[info.ObjectOf(x)] {
+					return triTrue
+				}
+			case *ast.BinaryExpr:
+				if (x.Op == token.EQL || x.Op == token.NEQ) && types.ExprString(x.X) == "n.anc.kind" && types.ExprString(x.Y) == "assignStmt" {
+					if x.Op == token.EQL {
+						return triTrue
+					}
+					return triFalse
+				}
+			case *ast.CallExpr:
+				if se, ok := unparen(x.Fun).(*ast.SelectorExpr); ok && se.Sel.Name == "CanSet" && len(x.Args) == 0 {
+					return triTrue
+				}
+			}
+			return triUnknown
+		}
+		for _, outer := range (&c02ctx{ic: ic}).closuresOf(fi) {
+			_ = outer
+		}
+		// every function literal of the generator (run-time closures and their local helpers)
+		ast.Inspect(fi.Decl.Body, func(n ast.Node) bool {
+			fl, ok := n.(*ast.FuncLit)
+			if !ok {
+				return true
+			}
+			// values produced in this literal: x := reflect.New(T).Elem(), r from Recv/TryRecv/Select
+			produced := map[types.Object]bool{}
+			for _, p := range fl.Type.Params.List {
+				for _, nm := range p.Names {
+					if types.TypeString(info.TypeOf(p.Type), nil) == "reflect.Value" {
+						produced[info.ObjectOf(nm)] = true // a helper's parameter: the value to install
+					}
+				}
+			}
+			ast.Inspect(fl.Body, func(m ast.Node) bool {
+				if inner, ok := m.(*ast.FuncLit); ok && inner != fl {
+					return false
+				}
+				as, ok := m.(*ast.AssignStmt)
+				if !ok {
+					return true
+				}
+				for i, l := range as.Lhs {
+					id, ok := l.(*ast.Ident)
+					if !ok {
+						continue
+					}
+					var rhs ast.Expr
+					if len(as.Rhs) == len(as.Lhs) {
+						rhs = as.Rhs[i]
+					} else if len(as.Rhs) == 1 {
+						rhs = as.Rhs[0]
+					}
+					if rhs == nil {
+						continue
+					}
+					if isFreshValue(ic, nil, rhs) || len(callsIn(info, rhs, false, "reflect.Value.Recv", "reflect.Value.TryRecv", "reflect.Select")) > 0 {
+						produced[info.ObjectOf(id)] = true
+					}
+				}
+				return true
+			})
+			if len(produced) == 0 {
+				return true
+			}
+			// replacements of the own slot by a produced value, directly in this literal
+			alias := map[types.Object]bool{}
+			var sites []*ast.AssignStmt
+			ast.Inspect(fl.Body, func(m ast.Node) bool {
+				if inner, ok := m.(*ast.FuncLit); ok && inner != fl {
+					return false
+				}
+				as, ok := m.(*ast.AssignStmt)
+				if !ok {
+					return true
+				}
+				if len(as.Lhs) == len(as.Rhs) {
+					for i, rhs := range as.Rhs {
+						if selFieldNode(info, unparen(rhs)) == dataFld {
+							if id, ok := as.Lhs[i].(*ast.Ident); ok {
+								alias[info.ObjectOf(id)] = true
+							}
+						}
+					}
+				}
+				for i, l := range as.Lhs {
+					ix, ok := unparen(l).(*ast.IndexExpr)
+					if !ok {
+						continue
+					}
+					isVec := selField(info, ix.X) == dataFld
+					if id, ok := unparen(ix.X).(*ast.Ident); ok && alias[info.ObjectOf(id)] {
+						isVec = true
+					}
+					iid, ok := unparen(ix.Index).(*ast.Ident)
+					if !isVec || !ok || !ownIdx[info.ObjectOf(iid)] {
+						continue
+					}
+					var rhs ast.Expr
+					if len(as.Rhs) == len(as.Lhs) {
+						rhs = as.Rhs[i]
+					} else if len(as.Rhs) == 1 {
+						// x, data[i], y = f(): the middle result of reflect.Select
+						if len(callsIn(info, as.Rhs[0], false, "reflect.Select", "reflect.Value.Recv", "reflect.Value.TryRecv")) > 0 {
+							sites = append(sites, as)
+						}
+						continue
+					}
+					if rid, ok := unparen(rhs).(*ast.Ident); ok && produced[info.ObjectOf(rid)] {
+						sites = append(sites, as)
+					}
+				}
+				return true
+			})
+			if len(sites) == 0 {
+				return true
+			}
+			g := cfg.New(fl.Body, func(c *ast.CallExpr) bool { return !noReturn(info, c) })
+			reach := map[*cfg.Block]bool{}
+			var walk func(b *cfg.Block)
+			walk = func(b *cfg.Block) {
+				if reach[b] {
+					return
+				}
+				reach[b] = true
+				if len(b.Succs) == 2 && len(b.Nodes) > 0 {
+					if cond, ok := b.Nodes[len(b.Nodes)-1].(ast.Expr); ok {
+						switch evalCond(cond, atom) {
+						case triTrue:
+							walk(b.Succs[0])
+							return
+						case triFalse:
+							walk(b.Succs[1])
+							return
+						}
+					}
+				}
+				for _, s := range b.Succs {
+					walk(s)
+				}
+			}
+			if len(g.Blocks) > 0 {
+				walk(g.Blocks[0])
+			}
+			for _, st := range sites {
+				nSites++
+				reachable := false
+				for _, b := range g.Blocks {
+					if !reach[b] {
+						continue
+					}
+					for _, nd := range b.Nodes {
+						if nd.Pos() <= st.Pos() && st.End() <= nd.End() {
+							reachable = true
+						}
+					}
+				}
+				key := fmt.Sprintf("%s/own-slot-replaced#%d/not-for-assignments", name, nSites)
+				r.Check(!reachable, "R04.9", key, ic.pos(st.Pos()), "not reached when the parent is an assignment: the value is set into the destination",
+					"generator "+name+" installs the value it produced by replacing its frame slot ("+types.ExprString(st.Lhs[0])+" = ...) also when it is the right-hand side of an assignment, where cfg has made that slot the destination's: pointers to the assigned variable and closures over it keep the old value (p := &x; x = T{3, 4}), and a field or element destination is never written (res[i] = <-ch)")
+			}
+			return true
+		})
+	}
+	if nSites < 3 {
+		r.Errorf("R04.9: only %d own-slot replacements by produced values found (struct literals and channel receives expected)", nSites)
 	}
 }
